@@ -141,7 +141,15 @@ def opTrace (name : String) (d : List UInt8) (bs : Nat) (kind : StoreKind) (rang
     if name == "encv-sync" && ranges.isEmpty then some [] else
     (tree.prePartialChunks tr 0).map fun plan => plan.flatMap fun c =>
       match c with
-      | .parent node _ _ _ _ => [⟨"ob", s!"load_{node}", some (true, node)⟩, ⟨"w", "write_64", some (true, node)⟩]
+      | .parent node _ _ _ _ =>
+        [⟨"ob", s!"load_{node}", some (true, node)⟩] ++
+        -- io backed sync stores read the pair from their backing: one positional read per load
+        (if name.endsWith "-sync" && (kind == .preIo || kind == .postIo) then
+          match st.slot node with
+          | some k => [(⟨"obio", s!"read_at_{k * 64}_64", some (true, node)⟩ : Ev)]
+          | none => []
+         else []) ++
+        [⟨"w", "write_64", some (true, node)⟩]
       | .leaf start size isRoot rs =>
         let buf := (d.drop (start * 1024)).take size
         let n := if !Ranges.isAll rs then (encodeSelectedRec hf recFuel start buf isRoot rs bs true).2.length else size
@@ -192,7 +200,8 @@ def opTrace (name : String) (d : List UInt8) (bs : Nat) (kind : StoreKind) (rang
 
 /-- objects of an operation in the order the harness lists them -/
 def opObjs (name : String) : List String :=
-  if name.startsWith "enc" then ["data", "ob", "w"]
+  if name == "encv-sync" || name == "encp-sync" then ["data", "ob", "w", "obio"]
+  else if name.startsWith "enc" then ["data", "ob", "w"]
   else if name == "mixed" then ["data", "ob", "s"]
   else if name.startsWith "decr" then ["r", "t", "ob"]
   else if name.startsWith "ob-" then ["data", "ob"]
@@ -234,7 +243,19 @@ def opFaults (args : List String) (impl : String) : Verdict :=
           let lines := objs.flatMap fun o =>
             let evs := tr.filter (·.obj == o)
             (evs.zipIdx.filter fun (_, k) => k % (max stride 1) == 0).map fun (e, k) =>
-              s!"{o}@{k}[{e.label}] " ++ " ".intercalate (kinds.map fun kd => s!"{kd}={expectFault name e kd}/a0/p1")
+              s!"{o}@{k}[{e.label}] " ++ " ".intercalate (kinds.map fun kd =>
+                -- the byte encoders have a fault-aware model function; the others use the call skeleton
+                let res :=
+                  if name.startsWith "enc" then
+                    let fl := if name.endsWith "-fsm" then Flavour.fsm else Flavour.sync
+                    let validate := name.startsWith "encv"
+                    let eo := if o == "data" then EncObj.data else if o == "ob" || o == "obio" then EncObj.ob else EncObj.w
+                    let kk := match kd with
+                      | "Other" => IoKind.other | "UnexpectedEof" => IoKind.unexpectedEof
+                      | "ConnectionReset" => IoKind.connectionReset | _ => IoKind.writeZero
+                    encEndStr (encodeRangesF hf fl validate d (intactStore kind d bs) ranges (some ⟨eo, k, kk⟩)).terminal
+                  else expectFault name e kd
+                s!"{kd}={res}/a0/p1")
           let m := " # ".intercalate (head :: lines)
           -- spec verdict on the implementation's report, clause by clause (independent of the skeleton)
           let parts := impl.splitOn " # "
